@@ -386,6 +386,14 @@ def c06_6(ctx):
               '; '.join(unparse(c) for c in cs))
 
 
+def _chain(fn):
+    """The function body with guard clauses (`if c: return a` / `return b`) folded back into one if/elif/else chain."""
+    import copy
+    from engine.normalize import _structure_returns
+    body = [s_ for s_ in copy.deepcopy(fn.node.body) if not (isinstance(s_, ast.Expr) and isinstance(s_.value, ast.Constant))]
+    return _structure_returns(body) or body
+
+
 def c06_8(ctx):
     ctx.rule('C06.8', 'prefix <-> scope kind tables are inverse; kinds ordered GLOBAL < FILE < LOCAL', 3)
     vals = {k: ctx.fold.class_const(LST, k) for k in ('GLOBAL', 'FILE', 'LOCAL')}
@@ -393,7 +401,7 @@ def c06_8(ctx):
               'GLOBAL < FILE < LOCAL (the routing comparison relies on it)', str(vals))
     gls = ctx.repo.func(LST + '.get_label_scope')
     table = {}
-    cur = next((s for s in gls.node.body if isinstance(s, ast.If)), None)
+    cur = next((s for s in _chain(gls) if isinstance(s, ast.If)), None)
     while cur is not None:
         t = cur.test
         r = next((s for s in cur.body if isinstance(s, ast.Return)), None)
@@ -408,7 +416,7 @@ def c06_8(ctx):
     ctx.check(table == {'.': 'LOCAL', '_': 'FILE', '': 'GLOBAL'}, 'kinds:prefix->kind', gls.site(), "'.' -> LOCAL, '_' -> FILE, otherwise GLOBAL", str(table))
     lp = ctx.repo.func(LST + '.label_prefix')
     inv = {}
-    cur = next((s for s in lp.node.body if isinstance(s, ast.If)), None)
+    cur = next((s for s in _chain(lp) if isinstance(s, ast.If)), None)
     while cur is not None:
         t = cur.test
         r = next((s for s in cur.body if isinstance(s, ast.Return)), None)
